@@ -12,6 +12,18 @@ pub struct Pay {
 thread_local! {
     /// how the payload's Debug impl behaves on this thread: 0 normal, 1 returns Err, 2 panics
     pub static PAY_DEBUG_MODE: std::cell::Cell<u8> = const { std::cell::Cell::new(0) };
+    /// the access in progress goes through a data reference that escaped from a scoped closure
+    pub static ESCAPED_USE: std::cell::Cell<bool> = const { std::cell::Cell::new(false) };
+    /// which call the escaped reference came from (for the event text)
+    pub static ESCAPED_RECEIVER: std::cell::RefCell<String> = const { std::cell::RefCell::new(String::new()) };
+}
+
+fn no_hold_clause() -> Clause {
+    if ESCAPED_USE.with(|e| e.get()) {
+        Clause::EscapedAccess
+    } else {
+        Clause::AccessWithoutHold
+    }
 }
 
 impl std::fmt::Debug for Pay {
@@ -41,8 +53,11 @@ impl Pay {
                     Some(false) => {}
                     Some(true) => g.event(Clause::WriteUnderShared, me, format!("write to payload of lock {} while holding it only shared", lid)),
                     None => {
-                        let d = format!("write to payload of lock {} while not holding it (excl={:?} shared={:?})", lid, g.locks[lid].excl, g.locks[lid].shared);
-                        g.event(Clause::AccessWithoutHold, me, d)
+                        let mut d = format!("write to payload of lock {} while not holding it (excl={:?} shared={:?})", lid, g.locks[lid].excl, g.locks[lid].shared);
+                        if ESCAPED_USE.with(|e| e.get()) {
+                            d = format!("{} through the data reference that the closure of {} handed back to its caller", d, ESCAPED_RECEIVER.with(|r| r.borrow().clone()));
+                        }
+                        g.event(no_hold_clause(), me, d)
                     }
                 }
             }
@@ -64,8 +79,11 @@ impl Pay {
         {
             let mut g = s.lock();
             if g.monitors_on && g.holds(me, lid).is_none() {
-                let d = format!("read of payload of lock {} while not holding it (excl={:?} shared={:?})", lid, g.locks[lid].excl, g.locks[lid].shared);
-                g.event(Clause::AccessWithoutHold, me, d);
+                let mut d = format!("read of payload of lock {} while not holding it (excl={:?} shared={:?})", lid, g.locks[lid].excl, g.locks[lid].shared);
+                if ESCAPED_USE.with(|e| e.get()) {
+                    d = format!("{} through the data reference that the closure of {} handed back to its caller", d, ESCAPED_RECEIVER.with(|r| r.borrow().clone()));
+                }
+                g.event(no_hold_clause(), me, d);
             }
         }
         let a = unsafe { std::ptr::read_volatile(&self.a) };
